@@ -285,6 +285,22 @@ def difference_numerator(a, b):
         return None
 
 
+def eq_goal_reparam(reg, a, b):
+    """like eq_goal, but the identity is first tried after the exact affine re-parametrisation of
+    local.reparam (much smaller polynomials); only an identically-zero numerator is accepted from it."""
+    from . import local, scalars as sc
+
+    try:
+        mp, _ = local.reparam(reg, [a, b])
+        if mp:
+            r = difference_numerator(sc.subst(a, mp), sc.subst(b, mp))
+            if r is not None and r[1] == 0:
+                return tm.TRUE, 0
+    except (TooBig, RecursionError):
+        pass
+    return eq_goal(a, b)
+
+
 def eq_goal(a, b):
     """Bool term equivalent to a == b wherever all denominators are non-zero; plus the numerator size."""
     r = difference_numerator(a, b)
